@@ -120,5 +120,33 @@ def bvhHit (ray : TemporalRay α) (t : Bvh (AABB α) (RPrim α)) (mn mx : α) : 
 /-- `bvhUnion`: `NewEmptyAABB` + two `EncapsulateBounds` (bvh.go:108-110) -/
 def nodeBox (a b : AABB α) : AABB α := ((NewEmptyAABB : AABB α).EncapsulateBounds a).EncapsulateBounds b
 
+/-! ### `rendering.Mesh` (mesh.go): an octree over `intersectingTri` elements -/
+
+/-- `rayIntersectsTri(s.tris[i], ray.Ray(), mn, mx, rec)` for octree element `i` (distance written, `none` = false) -/
+def elemTriHit (ray : TemporalRay α) (e : Elem α) (mn mx : α) : Option α :=
+  match e.prim with
+  | .tri a b c => (rayIntersectsTri a b c ray.Ray mn mx).map HitOut.dist
+  | _ => none
+
+/-- `Mesh.Hit2` (mesh.go:162-195): `ElementsIntersectingRay(ray.Ray(), mn, mx)`, then the hit-list loop over those
+    triangles with the range shortened to the last hit; flag / `Distance` -/
+def meshHit2 (t : Oct (AABB α) (Elem α)) (ray : TemporalRay α) (mn mx : α) : Option α :=
+  listHit (elemTriHit ray)
+    (t.pruned (fun b => !intersectsRayInRange b ray.Ray.Origin ray.Ray.Direction mn mx)
+              (fun e => intersectsRayInRange e.box ray.Ray.Origin ray.Ray.Direction mn mx)) mn mx
+
+/-- one callback of `Mesh.Hit`: state = (distance of the last hit, `maxStartDistance`) -/
+def meshStep (ray : TemporalRay α) (mn : α) (st : Option α × α) (e : Elem α) : Option α × α :=
+  match elemTriHit ray e mn st.2 with
+  | some d => (some d, d)
+  | none => st
+
+/-- `Mesh.Hit` (mesh.go:197-247): `TraverseIntersectingRay` with a callback that leaves `*min/*max` alone and
+    shortens its own captured `maxStartDistance` to the last hit -/
+def meshHit (t : Oct (AABB α) (Elem α)) (ray : TemporalRay α) (mn mx : α) : Option α :=
+  (t.traverse (fun b lo hi => intersectsRayInRange b ray.Ray.Origin ray.Ray.Direction lo hi)
+      (fun e lo hi => intersectsRayInRange e.box ray.Ray.Origin ray.Ray.Direction lo hi)
+      (fun e rng (st : Option α × α) => (rng, meshStep ray mn st e)) (mn, mx) (none, mx)).1
+
 end RPrims
 end PolyVerif
